@@ -2,6 +2,7 @@ package main
 
 import (
 	"flag"
+	"go/build/constraint"
 	"go/token"
 	"fmt"
 	"os"
@@ -80,6 +81,23 @@ func main() {
 	initScratch()
 	defer cleanupScratch()
 	t0 := time.Now()
+	if strings.Contains(*tags, "vectors") && *overlay == "" {
+		// the vectors build is type-checked against the go-faiss signature stub through a throw-away loader module
+		d := filepath.Join(scratchDir, "loadmod")
+		os.MkdirAll(d, 0755)
+		stub := os.Getenv("ZVC_FAISS_STUB")
+		if stub == "" {
+			stub = "/verif/stubs/go-faiss"
+		}
+		abs, _ := filepath.Abs(*repo)
+		gomod := "module loadmod\n\ngo 1.21\n\nrequire github.com/blevesearch/zapx/v16 v16.0.0\n\nreplace github.com/blevesearch/zapx/v16 => " + abs + "\n\nreplace github.com/blevesearch/go-faiss => " + stub + "\n"
+		os.WriteFile(filepath.Join(d, "go.mod"), []byte(gomod), 0644)
+		os.WriteFile(filepath.Join(d, "main.go"), []byte("package loadmod\n\nimport _ \"github.com/blevesearch/zapx/v16\"\n"), 0644)
+		if b, err := os.ReadFile(filepath.Join(abs, "go.sum")); err == nil {
+			os.WriteFile(filepath.Join(d, "go.sum"), b, 0644)
+		}
+		*overlay = d
+	}
 	prog, pkg, err := loadProgram(*repo, *tags, *overlay)
 	if err != nil {
 		fmt.Fprintln(os.Stderr, "load:", err)
@@ -91,6 +109,9 @@ func main() {
 	repoSpecs, _ := filepath.Glob(filepath.Join(*repo, "zz_verif_*.go"))
 	files = append(files, repoSpecs...)
 	for _, f := range files {
+		if !buildTagsMatch(f, *tags) {
+			continue
+		}
 		if err := specs.parseFile(f); err != nil {
 			fmt.Fprintln(os.Stderr, "spec:", err)
 			os.Exit(2)
@@ -154,4 +175,30 @@ func main() {
 	if rep.Bad > 0 {
 		os.Exit(1)
 	}
+}
+
+// buildTagsMatch evaluates the //go:build line of a contract file against the tag set in use.
+func buildTagsMatch(path, tags string) bool {
+	data, err := os.ReadFile(path)
+	if err != nil {
+		return true
+	}
+	have := map[string]bool{}
+	for _, t := range strings.Split(tags, ",") {
+		have[strings.TrimSpace(t)] = true
+	}
+	for _, l := range strings.Split(string(data), "\n") {
+		l = strings.TrimSpace(l)
+		if strings.HasPrefix(l, "//go:build ") {
+			x, err := constraint.Parse(l)
+			if err != nil {
+				return true
+			}
+			return x.Eval(func(tag string) bool { return have[tag] })
+		}
+		if strings.HasPrefix(l, "package ") {
+			break
+		}
+	}
+	return true
 }
